@@ -1003,6 +1003,8 @@ def replay(path):
     doc = json.loads(open(path).read())
     case = doc["case"]
     ck = c.Check(PROP, "quick")
+    if os.environ.get("C18_NO_KNOWN"):
+        ck._known = {}
     wd = c.workdir(PROP, "replay_one")
     if case.get("mode") == "full":
         o = run_full_many([(0, case["case"])], wd, c.seed(), 1)[0]
